@@ -246,10 +246,13 @@ func c04KF(c c04Case, v *Violation) []string {
 	}
 	if v.Kind == "denotation" || v.Kind == "law-denotation" {
 		for _, f := range c.Feats {
-			for _, n := range []int{c.N, c.N + c.B, 0} {
-				if pointAbsorbed(ljn(rotateLoc(f.Loc, c.L, n))) {
-					sigs = append(sigs, "join-range-then-point-drops-point")
-				}
+			r1, t1 := reduceSim(rotateLoc(f.Loc, c.L, c.N))
+			_, t2 := reduceSim(rotateLoc(r1, c.L, c.B))
+			_, t3 := reduceSim(rotateLoc(f.Loc, c.L, c.N+c.B))
+			_, t4 := reduceSim(rotateLoc(r1, c.L, -c.N))
+			_, t5 := reduceSim(rotateLoc(f.Loc, c.L, 0))
+			if t1 || t2 || t3 || t4 || t5 {
+				sigs = append(sigs, "join-range-then-point-drops-point")
 			}
 		}
 	}
